@@ -402,6 +402,43 @@ Definition chk_C12 (c : chain_case) (last : option (query * val)) (o : op) (ok :
   end.
 Definition mon_C12 := mon_steps_q chk_C12.
 
+(* C12, reverse quotes on constant-product pools: a Simulation of (reverse quote + 1) right after the ReverseSimulation
+   returns at least the requested amount (requests up to 10^18 units: above that the clause is false, F-rev18) *)
+Fixpoint rev_codes (mem : option (coin * string * string * Z)) (ops : list cop) (steps : list val) (prev : val) : list Z :=
+  match ops, steps with
+  | COp _ :: ro, st :: rs => rev_codes None ro rs (vnth 1 st)
+  | CQuery q :: ro, st :: rs =>
+      let ans := vnth 1 st in
+      match q with
+      | QReverseSimulation ask od pid =>
+          match quoted_ok ans with
+          | Some qq => rev_codes (Some (ask, od, pid, qq)) ro rs prev
+          | None => rev_codes None ro rs prev
+          end
+      | QSimulation offer askd pid =>
+          ((match mem with
+            | Some (ask, od, pid0, qq) =>
+                if String.eqb pid pid0 && String.eqb (denom_of offer) od && String.eqb askd (denom_of ask) &&
+                   (amount_of offer =? qq + 1) && (0 <? amount_of ask) && (amount_of ask <=? 1000000000000000000) &&
+                   match find_pool prev pid with Some p => pool_is_cp p | None => false end then
+                  match quoted_ok ans with
+                  | Some r => if amount_of ask <=? r then [] else [12]
+                  | None => []
+                  end
+                else []
+            | None => []
+            end) ++ rev_codes mem ro rs prev)%list
+      | _ => rev_codes None ro rs prev
+      end
+  | _, _ => []
+  end.
+Definition mon_C12r (c : chain_case) (obs : val) : list Z :=
+  (mon_C12 c obs ++
+   match vlist obs with
+   | _ :: s0 :: steps => nodup Z.eq_dec (rev_codes None (cc_ops c) steps s0)
+   | _ => []
+   end)%list.
+
 (* C09: an emergency withdrawal returns at least 10% and at most 100% of the position to its owner; a regular one all *)
 Definition chk_C09 (c : chain_case) (o : op) (ok : bool) (prev cur : val) : list Z :=
   if negb ok then [] else
